@@ -746,3 +746,164 @@ def rule_progressive_type_check(chk, rid):
                           "partly matches (e.g. `T | undefined`) is treated as fully valid and the call is typed infallible" % (which, pr, pa), detail=d, loc=d["at"])
     if not tests:
         chk.fail_closed(rid, "Builder::new: no Kind::is_superset / intersects test found")
+
+
+# ---------------------------------------------------------------------------------------------
+# R03h: a kind-restricted argument is never rendered by a kind-agnostic conversion before its kind was checked
+
+AGNOSTIC = re.compile(r"value::value::\w+::<impl value::value::Value>::(to_string_lossy|coerce_to_bytes)$|"
+                      r"<value::value::Value as std::fmt::Display>::fmt$|<value::value::Value as std::string::ToString>::to_string$|"
+                      r"<value::value::Value as std::fmt::Debug>::fmt$")
+KIND_CHECK = re.compile(r"VrlValueConvert>::try_\w+$|<impl value::value::Value>::(as_\w+|into_object|into_array|is_\w+|kind|kind_str)$|"
+                        r"TryFrom<.*value::value::Value>>::try_from$|TryInto<.*>>::try_into$|<value::value::Value as std::cmp::PartialEq>::eq$")
+ALL_KINDS = sum(fmap.KIND_BITS[k] for k in ("BYTES", "INTEGER", "FLOAT", "BOOLEAN", "OBJECT", "ARRAY", "TIMESTAMP", "REGEX", "NULL"))
+
+
+def value_aliases(b, start):
+    """locals that hold the Value in `start` or a reference to it, or the payload of a `?`/Option wrapping it (forward closure)"""
+    al = set(start)
+    grew = True
+    while grew:
+        grew = False
+        for bi, si, st in b.iter_stmts():
+            d = st["d"]
+            if d.get("p") or d["l"] in al:
+                continue
+            rv = st["rv"]
+            src = None
+            if rv["k"] in ("use", "cast"):
+                p = op_place(rv["op"])
+                if p is not None and all(e == "*" or (isinstance(e, dict) and e.get("v") in ("Continue", "Some", "Ok")) or
+                                         (isinstance(e, dict) and e.get("f") == "0") for e in p.get("p", [])):
+                    src = p["l"]
+            elif rv["k"] == "ref":
+                p = rv["p"]
+                if all(e == "*" for e in p.get("p", [])):
+                    src = p["l"]
+            if src is not None and src in al:
+                al.add(d["l"]); grew = True
+        for bb, t in b.calls():
+            if t["dest"].get("p") or t["dest"]["l"] in al:
+                continue
+            cal = b.callee(t)
+            if (cal.endswith("as std::ops::Try>::branch") or re.search(r"::(as_ref|as_deref|clone|borrow|deref|unwrap|expect|to_owned)$", cal)) and t["args"] \
+                    and op_local(t["args"][0]) in al:
+                al.add(t["dest"]["l"]); grew = True
+    return al
+
+
+def agnostic_sites(facts, name, params, depth=0, memo=None):
+    """unguarded kind-agnostic conversions of the Value held in the given parameter locals (or value locals) of body `name`.
+    Returns list of (body name, line, callee)."""
+    memo = memo if memo is not None else {}
+    key = (name, tuple(sorted(params)))
+    if key in memo:
+        return memo[key]
+    memo[key] = []
+    if depth > 3 or not facts.has(name):
+        return []
+    b = facts.body(name)
+    al = value_aliases(b, params)
+    checks = []
+    sinks = []
+    passes = []
+    for bb, t in b.calls():
+        cal = b.callee(t)
+        pos = [i for i, a in enumerate(t["args"]) if op_local(a) in al]
+        if not pos:
+            continue
+        if KIND_CHECK.search(cal):
+            checks.append(bb)
+        elif AGNOSTIC.search(cal):
+            sinks.append((bb, t, cal))
+        elif facts.has(cal) and (cal.startswith("stdlib::") or cal.startswith("<stdlib::") or "::{closure" in cal):
+            passes.append((bb, t, cal, pos))
+    for sbb, place, adt, tg, other in cfgq.discr_switches_on(facts, b, lambda p, a: a == "value::value::Value"):
+        if place["l"] in al:
+            checks.append(sbb)
+    out = []
+    for bb, t, cal in sinks:
+        if not any(cb != bb and b.dominates(cb, bb) for cb in checks):
+            out.append((name, t["ln"], cal.rsplit("::", 1)[-1] if "Display" not in cal else "Display::fmt"))
+    for bb, t, cal, pos in passes:
+        if any(cb != bb and b.dominates(cb, bb) for cb in checks):
+            continue
+        cb_ = facts.body(cal)
+        plocals = [p + 1 for p in pos if p + 1 <= cb_.argc]
+        if cb_.kind == "closure":
+            continue
+        out += agnostic_sites(facts, cal, plocals, depth + 1, memo)
+    memo[key] = out
+    return out
+
+
+def rule_restricted_args_checked(chk, rid, M=None):
+    facts = chk.facts
+    M = M or function_model(facts)
+    chk.rule(rid, "a kind-restricted argument value is never rendered by a kind-agnostic conversion (to_string_lossy, Display, coerce_to_bytes) "
+                  "before its kind was checked", floor=150)
+    memo = {}
+    traced_total = [0]
+    for f in M.functions.values():
+        ident = f["identifier"]
+        params = {p["keyword"]: p for p in (fmap.parameters_of(facts, f) or []) if p.get("keyword")}
+        # keyword -> field of the expression struct
+        field_of = {}
+        for kindg, kw, cb, t in keywords_used(facts, f):
+            if kw is None:
+                continue
+            d = t["dest"]["l"]
+            fw = cfgq.copies_forward(cb, d)
+            for bi, si, st in cb.iter_stmts():
+                rv = st["rv"]
+                if rv["k"] == "agg" and rv.get("adt") in f["exprs"]:
+                    for fname, op in zip(rv.get("fnames", []), rv["ops"]):
+                        if op_local(op) in fw:
+                            field_of[kw] = fname
+        restricted = {kw: fld for kw, fld in field_of.items() if kw in params and params[kw].get("kind") is not None
+                      and (params[kw]["kind"] & ALL_KINDS) != ALL_KINDS}
+        sites = []
+        examined = 0
+        for e in f["exprs"]:
+            rn = M.resolve_body(e)
+            if not rn:
+                continue
+            b = facts.body(rn)
+            for kw, fld in restricted.items():
+                # results of `self.<fld>.resolve(ctx)`
+                starts = []
+                for bb, t in b.calls():
+                    if not b.callee(t).endswith("compiler::expression::Expression::resolve") and "Expression>::resolve" not in b.callee(t):
+                        continue
+                    if not t["args"]:
+                        continue
+                    src = flow_sources(b, op_local(t["args"][0]), pass_through=lambda c: True, field=None) if op_local(t["args"][0]) is not None else set()
+                    rl = op_local(t["args"][0])
+                    chain = cfgq.ref_chain(b, rl) if rl is not None else []
+                    hit = False
+                    for x in chain:
+                        for kind2, dbb, dsi, dx in b.defs().get(x, []):
+                            if kind2 == "stmt":
+                                pl = dx["rv"].get("p") if dx["rv"]["k"] == "ref" else op_place(dx["rv"].get("op", {})) if dx["rv"]["k"] in ("use", "cast") else None
+                                if pl and pl["l"] == 1 and fld in [e2.get("f") for e2 in pl.get("p", []) if isinstance(e2, dict)]:
+                                    hit = True
+                    if hit:
+                        starts.append(t["dest"]["l"])
+                if not starts:
+                    continue
+                examined += 1
+                for s_ in agnostic_sites(facts, rn, starts, 0, memo):
+                    sites.append((kw,) + s_)
+        traced_total[0] += examined
+        d = {"function": ident, "restricted_parameters": sorted(restricted), "arguments_traced": examined, "unguarded_agnostic_conversions": len(sites)}
+        chk.instance(rid, d, ok=not sites)
+        for n_, (kw, body, ln, what) in enumerate(sorted(set(sites))):
+            bb_ = facts.body(body)
+            chk.violation(rid, bb_.file, body, "`%s` argument `%s` rendered by %s without a kind check" % (ident, kw, what),
+                          "`%s`: the value of parameter `%s` (declared kind is restricted) reaches %s at %s:%s on a path with no preceding kind check: "
+                          "a runtime-typed argument of the wrong type (e.g. `%s!(.x)` with an integer) is silently converted instead of raising an error"
+                          % (ident, kw, what, bb_.file, ln, ident), detail=d, loc="%s:%s" % (bb_.file, ln))
+    chk.extra["R03h_arguments_traced"] = traced_total[0]
+    if traced_total[0] < 150:
+        chk.fail_closed(rid, "only %d restricted argument values could be traced from `self.<field>.resolve(ctx)` (expected >= 150): the tracing no longer "
+                             "matches the code" % traced_total[0])
